@@ -135,6 +135,60 @@ func verifC48MustReject(c *kit.Case, name string, conv core.PubkeyConverter, s s
 	}
 }
 
+// verifC48BufferReuse: the converters are shared instances (one address converter per node, handed to API,
+// logging, genesis and transaction code) and callers are free to keep one buffer and refill it between calls
+// (e.g. a loop producing consecutive addresses). Encode must be a function of the bytes it is given now, not
+// of the slice identity or of earlier calls: after every in-place modification the text must be the reference
+// encoding of the current content, decode back to it, and equal the text obtained from a fresh copy.
+func verifC48BufferReuse(rt *rapid.T, c *kit.Case, name string, conv core.PubkeyConverter, b []byte, ref func([]byte) string) {
+	buf := append([]byte{}, b...)
+	if got := conv.Encode(buf); got != ref(b) {
+		c.Violation("C48:"+name+":encode-differs-from-reference", "Encode(%x) = %q, reference %q", b, got, ref(b))
+	}
+	steps := rapid.IntRange(1, 3).Draw(rt, "reuseSteps")
+	for i := 0; i < steps; i++ {
+		switch rapid.IntRange(0, 3).Draw(rt, "reuseEdit") {
+		case 0: // next address: increment as a big-endian counter
+			for j := len(buf) - 1; j >= 0; j-- {
+				buf[j]++
+				if buf[j] != 0 {
+					break
+				}
+			}
+		case 1:
+			bit := rapid.IntRange(0, 8*len(buf)-1).Draw(rt, "reuseBit")
+			buf[bit/8] ^= 1 << uint(bit%8)
+		case 2: // refill completely
+			copy(buf, rapid.SliceOfN(rapid.Byte(), len(buf), len(buf)).Draw(rt, "reuseFill"))
+		default: // unchanged content, same buffer
+		}
+		want := append([]byte{}, buf...)
+		var got string
+		c.NoPanic("C48:"+name+":encode-panic", func() { got = conv.Encode(buf) })
+		if !bytes.Equal(buf, want) {
+			c.Violation("C48:"+name+":encode-modifies-input", "Encode changed its input from %x to %x", want, buf)
+		}
+		if got != ref(want) {
+			c.Violation("C48:"+name+":encode-depends-on-history", "after refilling the caller's buffer in place (step %d, first content %x): Encode(%x) = %q, the encoding of these bytes is %q", i+1, b, want, got, ref(want))
+		}
+		back, err := conv.Decode(got)
+		if err != nil || !bytes.Equal(back, want) {
+			c.Violation("C48:"+name+":roundtrip-differs", "reused buffer: Decode(Encode(%x)) = %x, %v", want, back, err)
+		}
+		if fresh := conv.Encode(append([]byte{}, want...)); fresh != got {
+			c.Violation("C48:"+name+":encode-depends-on-history", "Encode(%x) = %q from the reused buffer and %q from a fresh copy", want, got, fresh)
+		}
+		// the decoded slice belongs to the caller as well: scribbling over it must not influence later results
+		for j := range back {
+			back[j] ^= 0xff
+		}
+		if again, err := conv.Decode(got); err != nil || !bytes.Equal(again, want) {
+			c.Violation("C48:"+name+":decode-depends-on-history", "Decode(%q) = %x, %v after the caller modified the previously returned slice; want %x", got, again, err, want)
+		}
+		c.Class("buffer-reuse-step")
+	}
+}
+
 func TestVerifC48_Bech32(t *testing.T) {
 	convs := map[int]core.PubkeyConverter{}
 	for n := 2; n <= 50; n += 2 {
@@ -145,7 +199,7 @@ func TestVerifC48_Bech32(t *testing.T) {
 		convs[n] = cv
 	}
 	kit.Run(t, "C48", kit.Budget{Quick: 12000, Thorough: 200000},
-		"bech32 converter of length 2/20/32/50 or any even 2..50; bytes all-zero/all-ff/zero-prefixed/random; round trip, injectivity on a one-bit neighbour, text format, rejection of: other length, other prefix, every kind of one-character substitution; acceptance oracle (accepted => lower(text) == Encode(result)) on upper/mixed case, deletion, insertion, transposition and arbitrary text; non-trivial = the case exercised a one-character corruption and the upper-case spelling (all cases do), distinct by encoded text",
+		"bech32 converter of length 2/20/32/50 or any even 2..50; bytes all-zero/all-ff/zero-prefixed/random; round trip, injectivity on a one-bit neighbour, 1-3 re-encodings of one caller buffer refilled in place (counter increment, bit flip, full refill, unchanged) on the shared converter instance, text format, rejection of: other length, other prefix, every kind of one-character substitution; acceptance oracle (accepted => lower(text) == Encode(result)) on upper/mixed case, deletion, insertion, transposition and arbitrary text; non-trivial = the case exercised a one-character corruption and the upper-case spelling (all cases do), distinct by encoded text",
 		func(rt *rapid.T, c *kit.Case) {
 			var n int
 			if rapid.IntRange(0, 4).Draw(rt, "anyLen") == 0 {
@@ -189,6 +243,7 @@ func TestVerifC48_Bech32(t *testing.T) {
 			if s2 := conv.Encode(b2); s2 == s {
 				c.Violation("C48:bech32:encode-collision", "Encode(%x) == Encode(%x) == %q", b, b2, s)
 			}
+			verifC48BufferReuse(rt, c, "bech32", conv, b, func(x []byte) string { return verifC48OwnBech32("erd", x) })
 
 			// other decoded length: a well-formed erd text of another length
 			other := 2 * rapid.IntRange(1, 25).Draw(rt, "otherHalfLen")
@@ -296,7 +351,7 @@ func TestVerifC48_Hex(t *testing.T) {
 		convs[n] = cv
 	}
 	kit.Run(t, "C48", kit.Budget{Quick: 8000, Thorough: 100000},
-		"hex converter of length 2/20/32/64/96; round trip, injectivity, rejection of other lengths (a byte more/less, a nibble more) and of a non-hex character; acceptance oracle on upper/mixed case and arbitrary text; non-trivial = all, distinct by text",
+		"hex converter of length 2/20/32/64/96; round trip, injectivity, re-encodings of a caller buffer refilled in place, rejection of other lengths (a byte more/less, a nibble more) and of a non-hex character; acceptance oracle on upper/mixed case and arbitrary text; non-trivial = all, distinct by text",
 		func(rt *rapid.T, c *kit.Case) {
 			n := rapid.SampledFrom(verifC48HexLens).Draw(rt, "len")
 			conv := convs[n]
@@ -321,6 +376,7 @@ func TestVerifC48_Hex(t *testing.T) {
 			if conv.Encode(b2) == s {
 				c.Violation("C48:hex:encode-collision", "Encode(%x) == Encode(%x)", b, b2)
 			}
+			verifC48BufferReuse(rt, c, "hex", conv, b, hex.EncodeToString)
 			// other decoded lengths
 			var ws string
 			switch rapid.IntRange(0, 4).Draw(rt, "lenEdit") {
